@@ -5,7 +5,8 @@
      owned    : after the callback re-entered changed(), every object the lookup code was in the
                 middle of using still had a reference beyond the probe's own
      answer   : 0 = the value before the mutation, 1 = the value after it, 2 = something else,
-                3 = the expected exception, 4 = another exception
+                3 = the expected exception, 4 = another exception, 5 = SystemError (the C code carried
+                on with an exception set: never acceptable)
      second   : an undisturbed second call returned the post-mutation value (no stale survivor)
      growth   : gc-object / reference-count growth over [repeat] further runs of the scenario
 
